@@ -157,11 +157,17 @@ pub fn build(name: &str) -> Hier {
         // the spike's shape: signed t. next to a genuinely insecure u. under a signed root
         "signed-next-to-insecure" => {
             let root = ZoneDef { origin: Name::root(), keys: vec![root_key], nx: nsec.clone(), records: vec![ns("t."), ds_for("t.", ed[1], F_KSK), ns("u."), ns("e."), ds_for("e.", ed[3], F_KSK)] };
-            let t = ZoneDef { origin: n("t."), keys: vec![(ed[1], F_KSK)], nx: nsec.clone(), records: leaf_records("t.", 10) };
+            let mut trec = leaf_records("t.", 10);
+            // CNAMEs out of the signed zone: into the insecure sibling and into the secure one
+            trec.push(Record::from_rdata(n("cu.t."), 300, RData::CNAME(hickory_proto::rr::rdata::CNAME(n("www.u.")))));
+            trec.push(Record::from_rdata(n("ce.t."), 300, RData::CNAME(hickory_proto::rr::rdata::CNAME(n("www.e.")))));
+            let t = ZoneDef { origin: n("t."), keys: vec![(ed[1], F_KSK)], nx: nsec.clone(), records: trec };
             let u = ZoneDef { origin: n("u."), keys: vec![], nx: None, records: leaf_records("u.", 40) };
             let e = ZoneDef { origin: n("e."), keys: vec![(ed[3], F_KSK)], nx: nsec, records: leaf_records("e.", 30) };
             let mut q = std_queries("t.");
             q.push((n("www.u."), RecordType::A));
+            q.push((n("cu.t."), RecordType::A));
+            q.push((n("ce.t."), RecordType::A));
             finish(Hierarchy::build(name, &[root, t, u, e], &[(0, 0)]), q, Some("x.u."), Some("www.e."))
         }
         // every zone has two keys; only the first has a DS / is the trust anchor (the real server
